@@ -11,11 +11,13 @@ def main():
     dp = core.ensure_repo_on_path()
     import vf.ref, vf.gen, vf.bridge, vf.findings, vf.evidence, vf.run, vf.shard  # noqa
     import vf.mon.arbor, vf.mon.budget, vf.mon.hooks, vf.mon.reach  # noqa
+    import json
     n = 0
-    for fn in sorted(os.listdir(os.path.join(core.VERIF, "vf", "props"))):
-        if fn.startswith("C") and fn.endswith(".py"):
-            importlib.import_module("vf.props.%s" % fn[:-3])
-            n += 1
+    with open(os.path.join(core.VERIF, "MANIFEST.json")) as f:
+        man = json.load(f)
+    for c in man["checks"]:
+        importlib.import_module("vf.props.%s" % c["property_id"])
+        n += 1
     assert sys.version_info >= (3, 12), "sys.monitoring needs Python 3.12"
     print("vf selfcheck ok: dendropy %s from %s; %d property modules" % (dp.__version__, dp.__file__, n))
 
